@@ -20,6 +20,7 @@ package rules
 //	R-C06-5  c06_basic.go   user:password separated at the first colon only
 //	R-C06-6  c06_signer.go  Verify accepts only inside the TTL window and before the presign expiry (E1)
 //	R-C06-7  c06_header.go  header rules: the configured name is canonicalised before it indexes the header map
+//	R-C06-8  c06_source.go  every credential update received (etcd syncer, file watcher) is applied to the htpasswd object
 //
 // Everything below was actually run in /tmp/vw/C06/repo (scripts in /tmp/vw/C06/mut). Mutants of the
 // signer/validator were applied on top of the two proposed fixes so that the checker's exit code
@@ -124,6 +125,18 @@ package rules
 // keyed literals, classic for loop through a local, builder inlined into reload (reset + appends),
 // alg test as a predicate method, body digest in a helper; mutated r6/r7 are still caught.
 //
+// Fourth seeded round (slips hidden in refactorings; both were silent, now reported; c06_source.go):
+//
+//	seeded g  basicauth.go  watch body → reload(kvs) with "no credentials → return"      → R-C06-8 every received credential update is applied
+//	G2 `if len(kvs) == 0 { continue }` in the etcd watch loop; G3 file watcher skips non-Write events; G4 Reload only for a non-empty reader → same
+//	GOK the same refactoring without the early return → silent
+//	seeded h  jwt.go  tokenString returns cookie.Value as soon as the cookie exists       → R-C06-2 token is the non-empty cookie value, else the Bearer token
+//	H2 today's shape with `token == "" && v.spec.CookieName == ""`; H3 tokenString with `e == nil && cookie != nil` → same
+//	HOK tokenString with `e == nil && cookie.Value != ""`; HOK2 `if value := cookie.Value; len(value) > 0` → silent
+//	(side effect of an engine addition found on the way: facts learned from `&SigningContext{..}` made isPresign
+//	known false across the opaque initFromSignedRequest under NoHavoc, seeded e went silent; c06Verify now forgets
+//	the fields an opaque same-package callee assigns)
+//
 // Not caught (outside the decided clauses, see NotDecided): N1 verify rebuilds the canonical headers from
 // empty values; N2 getCanonicalQuery keeps only the first value of every parameter (both are caught by the
 // signer's known-answer tests).
@@ -171,16 +184,17 @@ func init() { Registry["C06"] = c06 }
 
 func c06(c *core.Ctx) string {
 	c.Rule("R-C06-1", "all methods must pass: in Validator.Handle the \"\" result is reachable only in states where every validator field is nil or its Validate/Verify call returned nil; a non-empty result is returned only after some validator returned an error, is a declared result of the kind, and on that path an output response with status 400 (header rules) / 401 (credentials) has been set")
-	c.Rule("R-C06-2", "algorithm pinning: every key function handed to jwt.Parse returns a key only on the edge where token.Method.Alg() equals the configured algorithm, and the key is not derived from the token; JWTValidator.Validate accepts only with the verdict of jwt.Parse; the claims container handed to the parser can hold every RFC 7519 form of aud/exp/nbf/iat (untyped Parse, a map, or a struct whose fields do not narrow them)")
+	c.Rule("R-C06-2", "algorithm pinning: every key function handed to jwt.Parse returns a key only on the edge where token.Method.Alg() equals the configured algorithm, and the key is not derived from the token; JWTValidator.Validate accepts only with the verdict of jwt.Parse and hands the parser the cookie value only where it is known non-empty, otherwise the Bearer token; the claims container handed to the parser can hold every RFC 7519 form of aud/exp/nbf/iat (untyped Parse, a map, or a struct whose fields do not narrow them)")
 	c.Rule("R-C06-3", "signed body is the forwarded body: no code outside httpprot reads or replaces net/http.Request.Body of the request underlying an httpprot.Request (value of Std() / the embedded field, or a copy of it whose Body has not been re-assigned): after FetchPayload that body is drained and the payload is authoritative")
 	c.Rule("R-C06-4", "signature covers the parts: hashCanonicalRequest feeds method, path (in its wire/escaped form, never the decoded URL.Path), query, canonical headers, signed-header list and body hash into the digest; on verify the query comes from the request URL and the body hash never from a request header; Verify accepts only when the presented signature equals the one recomputed by sign")
 	c.Rule("R-C06-5", "Basic credentials are split at the first colon only (RFC 7617: the password may contain ':'), never by a full split whose tail is dropped; the user and password handed to the credential lookup are pieces of exactly the base64-decoded credential string (no trimming, case folding, replacing or other string transformation between the decoder and the lookup)")
 	c.Rule("R-C06-6", "TTL window: Signer.Verify accepts only if (ttl disabled or -ttl <= age <= ttl) and (not presigned or age <= expire time)")
 	c.Rule("R-C06-7", "header rules are matched case-insensitively: on the chain from the configured header-rule name to the lookup, a direct index of the http.Header map is preceded by textproto.CanonicalMIMEHeaderKey / http.CanonicalHeaderKey (or the canonicalising Header methods are used)")
+	c.Rule("R-C06-8", "every credential update received from the user source (etcd sync channel, password-file watcher) is applied to the htpasswd object before the next one is awaited: no content-dependent skip between the receive and Reload / ReloadFromReader")
 	c.NotDecided = []string{
 		"cryptographic correctness of HMAC/SHA-256 and of the third-party jwt library (exp/nbf checks, signature check)",
 		"canonicalisation details: URI escaping, header folding, query encoding, host normalisation; that the signed-header list chosen by the client covers any particular header",
-		"htpasswd / bcrypt matching and the etcd/file credential caches; header-rule value semantics (regexp/values)",
+		"htpasswd / bcrypt matching, the initial load and the parsing of the etcd/file credential sources (only 'every received update is applied' is decided); header-rule value semantics (regexp/values)",
 		"OAuth2 token introspection",
 		"streaming payloads (max body size < 0): the property is quantified over buffered bodies",
 		"that a configured validator is actually instantiated (NewBasicAuthValidator returns nil without a cluster; a signer without access keys panics in Verify: C13)",
@@ -192,6 +206,8 @@ func c06(c *core.Ctx) string {
 	c06Signer(c)
 	c06Basic(c)
 	c06HeaderRules(c)
+	c06TokenSource(c)
+	c06UserSource(c)
 	return "Static necessary conditions of the Validator filter: path-sensitive decision table of Validator.Handle (admit only if every configured method passed, reject only on a failure and with 400/401 + declared result), algorithm pinning of every jwt key function, program-wide SSA taint rule that the drained std body of an httpprot.Request is never read or replaced outside httpprot (what the signature must bind is the payload), structural coverage of the canonical request and path-sensitive acceptance conditions of Signer.Verify (signature equality after recomputation, TTL window, presign expiry), first-colon split of Basic credentials. Not decided: cryptography, canonicalisation details, third-party jwt/htpasswd behaviour, OAuth2 introspection."
 }
 
